@@ -874,8 +874,8 @@ MIX3 = [
 BUDGET = {
     "quick": dict(pristine_cap=90, pristine_m=5, sim=100, sim3=40, single_cap=220, expand=16, expand_m=4, pct=30, rand=30, opcode=20, chunk=80,
                   log_every=8, extra2=0, extra3=0),
-    "thorough": dict(pristine_cap=400, pristine_m=8, sim=700, sim3=300, single_cap=1500, expand=200, expand_m=5, pct=200, rand=200,
-                     opcode=120, chunk=240, log_every=40, extra2=16, extra3=6),
+    "thorough": dict(pristine_cap=300, pristine_m=8, sim=400, sim3=150, single_cap=1000, expand=120, expand_m=5, pct=150, rand=150,
+                     opcode=100, chunk=240, log_every=40, extra2=12, extra3=5),
 }
 
 
